@@ -194,6 +194,17 @@ func writeWith(w canvas.Writer, text bool) string {
 	return digest(buf.Bytes())
 }
 
+var sharedPattern = []float64{0, 2, 3, 1}
+var sharedPattern2 = []float64{3, 1, 0}
+
+func digestCanvas(c *canvas.Canvas) string {
+	var buf bytes.Buffer
+	if err := renderers.PNG(canvas.DPMM(4))(&buf, c); err != nil {
+		return "error: " + err.Error()
+	}
+	return digest(buf.Bytes())
+}
+
 // RenderBodies is appended to Bodies; FirstRenderBody is the index of its first entry.
 var RenderBodies = []Body{
 	{Name: "pdf.New(nil options): path, image, text", Run: func() string { return renderPDF(true, nil) }},
@@ -235,6 +246,21 @@ var RenderBodies = []Body{
 		}
 		sort.Strings(tables)
 		return fmt.Sprintf("numGlyphs=%d maxp=%d advance=%v err=%v path=%x tables=%x", sfnt.NumGlyphs(), sfnt.Maxp.NumGlyphs, adv, err, sha1.Sum([]byte(p.String())), sha1.Sum([]byte(strings.Join(tables, " "))))
+	}},
+	{Name: "Dash(own line, shared pattern [0 2 3 1])", Run: func() string {
+		// a dash pattern is an argument that callers share between calls (like canvas.Dashed)
+		return canvas.MustParseSVGPath("M0 0L40 0").Dash(0.5, sharedPattern...).String() + fmt.Sprint(sharedPattern)
+	}},
+	{Name: "Context.SetDashes(shared pattern [3 1 0]) + rasterizer", Run: func() string {
+		c := canvas.New(12, 4)
+		ctx := canvas.NewContext(c)
+		ctx.SetStrokeColor(color.RGBA{0, 0, 200, 255})
+		ctx.SetStrokeWidth(0.5)
+		ctx.SetDashes(0, sharedPattern2...)
+		ctx.MoveTo(1, 2)
+		ctx.LineTo(11, 2)
+		ctx.Stroke()
+		return writeWith(renderers.PNG(canvas.DPMM(4)), false)[:0] + digestCanvas(c) + fmt.Sprint(sharedPattern2)
 	}},
 	{Name: "renderers.EPS(): path, image", Run: func() string { return writeWith(renderers.EPS(), false) }},
 	{Name: "renderers.PNG(): path, image, text", Run: func() string { return writeWith(renderers.PNG(canvas.DPMM(3)), true) }},
